@@ -1,14 +1,92 @@
 (* C05 — differentiate returns the partial derivatives in variable order
    Property theorems only: each is closed by `exact <lemma>`; proofs live in the imported files. *)
+From Coq Require Import Reals.
+From Coquelicot Require Import Coquelicot.
 From Coq Require Import List ZArith QArith Qcanon Ring_theory Field_theory Permutation Sorted.
 Import ListNotations.
 From CK Require Import Base.
 From CK Require Import Circ.
 From CK Require Import Differentiate.
+From CK Require Import DiffReal.
 Close Scope Qc_scope. Close Scope Q_scope. Close Scope Z_scope. Open Scope nat_scope.
 
 (* for any abstract (iterated) partial-derivative operator Dv satisfying linearity and the independent-factor rules, block (i,t) of the differentiated circuit evaluates to Dv (nth t vars) of node i and the copy evaluates to node i *)
 Theorem C05_differentiate :
+  forall (R : Type) (rO rI : R) (radd rmul : R -> R -> R),
+         semi_ring_theory rO rI radd rmul eq ->
+         forall (D : Type) (DF : (asg D -> R) -> Prop),
+         (forall f g : asg D -> R, (forall y : asg D, f y = g y) -> DF f -> DF g) ->
+         (forall c : R, DF (fun _ : asg D => c)) ->
+         (forall f g : asg D -> R, DF f -> DF g -> DF (fun y : asg D => radd (f y) (g y))) ->
+         (forall f g : asg D -> R, DF f -> DF g -> DF (fun y : asg D => rmul (f y) (g y))) ->
+         forall Dv : nat -> (asg D -> R) -> asg D -> R,
+         (forall (v : nat) (f g : asg D -> R),
+          (forall y : asg D, f y = g y) -> forall y : asg D, Dv v f y = Dv v g y) ->
+         (forall (v : nat) (f g : asg D -> R) (y : asg D),
+          DF f -> DF g -> Dv v (fun y0 : asg D => radd (f y0) (g y0)) y = radd (Dv v f y) (Dv v g y)) ->
+         (forall (v : nat) (c : R) (f : asg D -> R) (y : asg D),
+          DF f -> Dv v (fun y0 : asg D => rmul c (f y0)) y = rmul c (Dv v f y)) ->
+         (forall (v : nat) (S : list nat) (g f : asg D -> R),
+          dep_on R D S g ->
+          ~ In v S ->
+          DF f -> forall y : asg D, Dv v (fun y0 : asg D => rmul (g y0) (f y0)) y = rmul (g y) (Dv v f y)) ->
+         (forall (v : nat) (S : list nat) (f : asg D -> R),
+          dep_on R D S f -> ~ In v S -> forall y : asg D, Dv v f y = rO) ->
+         forall (vars : list nat) (c : circuit R D),
+         ok R rO D c ->
+         inputs_DF R rO D DF c ->
+         forall (y : asg D) (i : nat),
+         i < length c ->
+         nth (cidx (length vars) i) (eval R rO radd rmul D (differentiate R rO D Dv vars c) y) [] =
+         nth i (eval R rO radd rmul D c y) [] /\
+         (forall t : nat,
+          t < length vars ->
+          forall k : nat,
+          nth k (nth (didx (length vars) i t) (eval R rO radd rmul D (differentiate R rO D Dv vars c) y) []) rO =
+          Dv (nth t vars 0) (fun y' : asg D => nth k (nth i (eval R rO radd rmul D c y') []) rO) y).
+Proof. exact differentiate_correct. Qed.
+Print Assumptions C05_differentiate.
+
+(* the outputs attached to an output node are the derivatives w.r.t. exactly the variables of its scope, in the order of vars (increasing when vars is sorted), followed by the node itself *)
+Theorem C05_outputs_sorted :
+  forall (R : Type) (rO rI : R) (radd rmul : R -> R -> R),
+         semi_ring_theory rO rI radd rmul eq ->
+         forall (D : Type) (DF : (asg D -> R) -> Prop),
+         (forall f g : asg D -> R, (forall y : asg D, f y = g y) -> DF f -> DF g) ->
+         (forall c : R, DF (fun _ : asg D => c)) ->
+         (forall f g : asg D -> R, DF f -> DF g -> DF (fun y : asg D => radd (f y) (g y))) ->
+         (forall f g : asg D -> R, DF f -> DF g -> DF (fun y : asg D => rmul (f y) (g y))) ->
+         forall Dv : nat -> (asg D -> R) -> asg D -> R,
+         (forall (v : nat) (f g : asg D -> R),
+          (forall y : asg D, f y = g y) -> forall y : asg D, Dv v f y = Dv v g y) ->
+         (forall (v : nat) (f g : asg D -> R) (y : asg D),
+          DF f -> DF g -> Dv v (fun y0 : asg D => radd (f y0) (g y0)) y = radd (Dv v f y) (Dv v g y)) ->
+         (forall (v : nat) (c : R) (f : asg D -> R) (y : asg D),
+          DF f -> Dv v (fun y0 : asg D => rmul c (f y0)) y = rmul c (Dv v f y)) ->
+         (forall (v : nat) (S : list nat) (g f : asg D -> R),
+          dep_on R D S g ->
+          ~ In v S ->
+          DF f -> forall y : asg D, Dv v (fun y0 : asg D => rmul (g y0) (f y0)) y = rmul (g y) (Dv v f y)) ->
+         (forall (v : nat) (S : list nat) (f : asg D -> R),
+          dep_on R D S f -> ~ In v S -> forall y : asg D, Dv v f y = rO) ->
+         forall (vars : list nat) (c : circuit R D) (o : nat),
+         ok R rO D c ->
+         inputs_DF R rO D DF c ->
+         o < length c ->
+         (forall (y : asg D) (k : nat),
+          map
+            (fun idx : nat => nth k (nth idx (eval R rO radd rmul D (differentiate R rO D Dv vars c) y) []) rO)
+            (outs R D vars c o) =
+          map (fun v : nat => Dv v (fun y' : asg D => nth k (nth o (eval R rO radd rmul D c y') []) rO) y)
+            (dvars vars (nth o (scopes R D c) [])) ++ [nth k (nth o (eval R rO radd rmul D c y) []) rO]) /\
+         (forall v : nat,
+          In v (dvars vars (nth o (scopes R D c) [])) <-> In v vars /\ In v (nth o (scopes R D c) [])) /\
+         (StronglySorted lt vars -> StronglySorted lt (dvars vars (nth o (scopes R D c) []))).
+Proof. exact differentiate_outputs. Qed.
+Print Assumptions C05_outputs_sorted.
+
+(* special case DF := all functions (the unconditional rules of the first version of this theorem) *)
+Theorem C05_differentiate_total :
   forall (R : Type) (rO rI : R) (radd rmul : R -> R -> R),
          semi_ring_theory rO rI radd rmul eq ->
          forall (D : Type) (Dv : nat -> (asg D -> R) -> asg D -> R),
@@ -34,36 +112,58 @@ Theorem C05_differentiate :
           forall k : nat,
           nth k (nth (didx (length vars) i t) (eval R rO radd rmul D (differentiate R rO D Dv vars c) y) []) rO =
           Dv (nth t vars 0) (fun y' : asg D => nth k (nth i (eval R rO radd rmul D c y') []) rO) y).
-Proof. exact differentiate_correct. Qed.
-Print Assumptions C05_differentiate.
+Proof. exact differentiate_correct_total. Qed.
+Print Assumptions C05_differentiate_total.
 
-(* the outputs attached to an output node are the derivatives w.r.t. exactly the variables of its scope, in the order of vars (increasing when vars is sorted), followed by the node itself *)
-Theorem C05_outputs_sorted :
-  forall (R : Type) (rO rI : R) (radd rmul : R -> R -> R),
-         semi_ring_theory rO rI radd rmul eq ->
-         forall (D : Type) (Dv : nat -> (asg D -> R) -> asg D -> R),
-         (forall (v : nat) (f g : asg D -> R),
-          (forall y : asg D, f y = g y) -> forall y : asg D, Dv v f y = Dv v g y) ->
-         (forall (v : nat) (f g : asg D -> R) (y : asg D),
-          Dv v (fun y0 : asg D => radd (f y0) (g y0)) y = radd (Dv v f y) (Dv v g y)) ->
-         (forall (v : nat) (c : R) (f : asg D -> R) (y : asg D),
-          Dv v (fun y0 : asg D => rmul c (f y0)) y = rmul c (Dv v f y)) ->
-         (forall (v : nat) (S : list nat) (g f : asg D -> R),
-          dep_on R D S g ->
-          ~ In v S -> forall y : asg D, Dv v (fun y0 : asg D => rmul (g y0) (f y0)) y = rmul (g y) (Dv v f y)) ->
-         (forall (v : nat) (S : list nat) (f : asg D -> R),
-          dep_on R D S f -> ~ In v S -> forall y : asg D, Dv v f y = rO) ->
-         forall (vars : list nat) (c : circuit R D) (o : nat),
-         ok R rO D c ->
-         o < length c ->
-         (forall (y : asg D) (k : nat),
-          map
-            (fun idx : nat => nth k (nth idx (eval R rO radd rmul D (differentiate R rO D Dv vars c) y) []) rO)
-            (outs R D vars c o) =
-          map (fun v : nat => Dv v (fun y' : asg D => nth k (nth o (eval R rO radd rmul D c y') []) rO) y)
-            (dvars vars (nth o (scopes R D c) [])) ++ [nth k (nth o (eval R rO radd rmul D c y) []) rO]) /\
-         (forall v : nat,
-          In v (dvars vars (nth o (scopes R D c) [])) <-> In v vars /\ In v (nth o (scopes R D c) [])) /\
-         (StronglySorted lt vars -> StronglySorted lt (dvars vars (nth o (scopes R D c) []))).
-Proof. exact differentiate_outputs. Qed.
-Print Assumptions C05_outputs_sorted.
+(* INSTANCE over the real numbers (Coquelicot): for every ok circuit over R whose input functions are differentiable in each variable, block (i,t) of the differentiated circuit IS the partial derivative (is_derive: existence included) w.r.t. variable nth t vars of unit k of node i; uses the standard library's real-number axioms and functional extensionality (named in the trusted base) *)
+Theorem C05_differentiate_real :
+  forall (vars : list nat) (c : circuitR),
+         ok R 0%R R c ->
+         inputs_differentiable c ->
+         forall (y : asgR) (i : nat),
+         i < length c ->
+         forall t : nat,
+         t < length vars ->
+         forall k : nat,
+         is_derive
+           (fun x : R_AbsRing => nth k (nth i (eval R 0%R Rplus Rmult R c (updR y (nth t vars 0) x)) []) 0%R)
+           (y (nth t vars 0))
+           (nth k (nth (didx (length vars) i t) (eval R 0%R Rplus Rmult R (differentiateR vars c) y) []) 0%R).
+Proof. exact differentiate_real_is_derive. Qed.
+Print Assumptions C05_differentiate_real.
+
+(* ... stated with Coquelicot's total Derive *)
+Theorem C05_differentiate_real_Derive :
+  forall (vars : list nat) (c : circuitR),
+         ok R 0%R R c ->
+         inputs_differentiable c ->
+         forall (y : asgR) (i : nat),
+         i < length c ->
+         forall t : nat,
+         t < length vars ->
+         forall k : nat,
+         nth k (nth (didx (length vars) i t) (eval R 0%R Rplus Rmult R (differentiateR vars c) y) []) 0%R =
+         Derive (fun x : R => nth k (nth i (eval R 0%R Rplus Rmult R c (updR y (nth t vars 0) x)) []) 0%R)
+           (y (nth t vars 0)).
+Proof. exact differentiate_real. Qed.
+Print Assumptions C05_differentiate_real_Derive.
+
+(* every unit of every node of such a circuit is differentiable in each variable *)
+Theorem C05_circuits_differentiable :
+  forall c : circuitR,
+         ok R 0%R R c ->
+         inputs_differentiable c ->
+         forall i : nat,
+         i < length c ->
+         forall (k : nat) (y : asgR) (v : nat),
+         ex_derive (fun x : R_AbsRing => nth k (nth i (eval R 0%R Rplus Rmult R c (updR y v x)) []) 0%R) (y v).
+Proof. exact eval_differentiable. Qed.
+Print Assumptions C05_circuits_differentiable.
+
+(* non-vacuity: a quadratic polynomial input function meets the hypotheses, with derivative a1 + 2 a2 x *)
+Theorem C05_polynomial_input_instance :
+  forall (v : nat) (a0 a1 a2 : R) (y : asgR),
+         is_derive (fun x : R_AbsRing => (a0 + a1 * updR y v x v + a2 * updR y v x v ^ 2)%R) 
+           (y v) (a1 + 2 * a2 * y v)%R.
+Proof. exact poly_is_derive. Qed.
+Print Assumptions C05_polynomial_input_instance.
